@@ -29,6 +29,7 @@ func runC12(c *Ctx) {
 	defer c12IllegalChar(c)
 	defer c12OffsetScan(c)
 	tokenStorageFresh(c, "R10")
+	defer c.shared("R13", "C06/R9", "a node's position is that of the token it was parsed from: the parser keeps no node or token beyond the cursor, so nothing parsed earlier is handed out again for a later occurrence", keyHas("parser-state"), runC06)
 	defer c.shared("R12", "C11/R2", "the error reported is the first fault met: the parser hands every error of a sub-parser on unchanged — it does not discard it, rewind and report what a second attempt at the same text finds (a different token, possibly on another line)", func(o Obligation) bool {
 		return !strings.HasPrefix(o.Key, "(*lang.Evaluator)") && !strings.HasPrefix(o.Key, "cli.")
 	}, func(s *Ctx) { c11R2(s, "R2") })
